@@ -72,6 +72,9 @@ HOSTILE_INNER = [
     "select * from t limit 5 offset 2",
     "select ?, ? from t where a = ?",
     "select - 1, -1, - -1 from t",
+    # comments glued to their neighbours (no blank on either side)
+    "select a/*id*/ b from t", "select a/**/b, c--x\n from t", "select 1/*x*/+/*y*/2 from t/*z*/where a=1", "select 'x'/*c*/'y', `q`/*c*/.a from t",
+    "select a,/*c*/b from t--end", "select/*c*/a from(select 1)as s/*c*/",
     # parentheses at both ends that do not pair up with each other; fully wrapped queries
     "(select a from t) union all (select b from u)",
     "(select 1)", "((select 1))", "(select a from t where b in (1, 2)) union (select 3)",
